@@ -31,7 +31,7 @@ def compositions(n):
 
 def cases(tier):
   yield from multi_cases()
-  for c in universe.graph_cases([(1, eg.T21, 'all', 'none')]):
+  for c in universe.graph_cases([(1, eg.T21, 'allx', 'none')]):
     c['maxlen'] = 3
     yield c
   types = eg.T21
@@ -59,7 +59,7 @@ def run_multi(case, res):
   L = env.lib()
   subs = []
   for i, (t, v) in enumerate(case['multi']):
-    ar = dict(irm.VARIANTS[t])[v]
+    ar = irm.arity(t, v)
     subs.append({'ops': [irm.op(t, v, [0] * ar)], 'exports': [],
                  'prefix': ['', 'b_'][i], 'key': ['serving_default', 'sig1'][i]})
   built = irm.build({'subgraphs': subs, 'pool': env.seed() % 4})
